@@ -40,6 +40,7 @@ func init() {
 	engine.RegisterSignature("c06-lexer-cr-peek", sigLexerCRPeek)
 	engine.RegisterSignature("c06-number-this-tonumber", sigThisToNumber)
 	engine.RegisterSignature("c06-literal-key-source-text", sigLiteralKeySource)
+	engine.RegisterSignature("c06-json-int64-digits", sigJSONInt64Digits)
 }
 
 func auxFloat(m *engine.Mismatch, k string) (float64, bool) {
@@ -569,4 +570,25 @@ func sigThisToNumber(m *engine.Mismatch) bool {
 func sigLiteralKeySource(m *engine.Mismatch) bool {
 	s, ok := textOp(m, "literalkey")
 	return ok && m.Observed == "s:"+s
+}
+
+// sigJSONInt64Digits: JSON.stringify of a Number that is an integer with
+// 2^53 < |n| < 2^63 goes through Value.number() -> int64 -> encoding/json and
+// prints all the integer's digits instead of ToString of the double.
+func sigJSONInt64Digits(m *engine.Mismatch) bool {
+	if m.Aux["op"] != "JSON" {
+		return false
+	}
+	x, ok := auxFloat(m, "x")
+	exact, ok2 := new(big.Int).SetString(m.Aux["exact"], 10)
+	if !ok || !ok2 {
+		return false
+	}
+	abs := new(big.Int).Abs(exact)
+	// 2^53 < |n| < 2^63, and -2^63 itself (math.MinInt64 is still an int64)
+	if abs.Cmp(two53) <= 0 || abs.Cmp(two63) > 0 || (abs.Cmp(two63) == 0 && exact.Sign() > 0) {
+		return false
+	}
+	want := num.ToString(x)
+	return strings.Contains(m.Expected, want) && m.Observed == strings.Replace(m.Expected, want, exact.String(), 1) && m.Observed != m.Expected
 }
